@@ -12,15 +12,18 @@ CHECK = {'level': 'exploration',
          'canonical tokens, push and pull entry points, stragglers) in which a compaction happened and >= 2 ticks chose a checkpoint + persisted runs with '
          '>= 2 values reaching a store + overlap cases (two concurrent checkpoint runs - explicit callers, or the real Start() timer goroutine plus a stop-path '
          'caller - with the first run\'s local checkpoint write parked by the H1 store until the second run returned or the checkpointer lock is seen to stay '
-         'held; values reaching each store judged in commit order) + race rounds with >= 3 chosen checkpoints',
+         'held; values reaching each store judged in commit order) + race rounds with >= 3 chosen checkpoints + push rounds between two real gateways (one batch of '
+         '4-9 documents with a PRNG-chosen already-known subset; push-batches: changes batch size 2-3 so that two batches are in flight, first batch wanted and '
+         'read slowly on the active side, later batches mostly already known) x legacy / version-vector protocol in which >= 1 checkpoint value reached the store',
  'parts': [{'name': 'exhaustive', 'pkg': 'db', 'run': '^TestVerif_C17_Exhaustive$', 'timeout_q': 400, 'timeout_t': 2400},
            {'name': 'random', 'pkg': 'db', 'run': '^TestVerif_C17_Random$', 'timeout_q': 300, 'timeout_t': 1800},
            {'name': 'persist', 'pkg': 'db', 'run': '^TestVerif_C17_Persist$', 'timeout_q': 300, 'timeout_t': 1800},
            {'name': 'overlap', 'pkg': 'db', 'run': '^TestVerif_C17_Overlap$', 'timeout_q': 300, 'timeout_t': 1800},
            {'name': 'race', 'pkg': 'db', 'race': True, 'run': '^TestVerif_C17_Race$', 'timeout_q': 400, 'timeout_t': 2400},
-           {'name': 'push', 'pkg': 'rest', 'run': '^TestVerif_C17_Push$', 'timeout_q': 600, 'timeout_t': 2400, 'env': {'SG_TEST_BUCKET_POOL_SIZE': '8'}}],
+           {'name': 'push', 'pkg': 'rest', 'run': '^TestVerif_C17_Push$', 'timeout_q': 600, 'timeout_t': 2400, 'env': {'SG_TEST_BUCKET_POOL_SIZE': '8'}},
+           {'name': 'push-batches', 'pkg': 'rest', 'run': '^TestVerif_C17_PushBatches$', 'timeout_q': 600, 'timeout_t': 2400, 'env': {'SG_TEST_BUCKET_POOL_SIZE': '8'}}],
  'min_evals': 1000000,
- 'min_counters': {'push.checkpoint_values_judged': 3,
+ 'min_counters': {'push.checkpoint_values_judged': 3, 'push-batches.checkpoint_values_judged': 3, 'push-batches.documents_pushed': 30,
                   'exhaustive.interleavings': 1000000,
                   'exhaustive.ticks_checked': 1000000,
                   'exhaustive.compactions': 100000,
@@ -44,7 +47,7 @@ CHECK = {'level': 'exploration',
  'race_state': ['c.expectedSeqs', 'c.processedSeqs', 'c.lastCheckpointSeq', 'c.idAndRevLookup', 'c.stats', 'c.stats.ProcessedSequenceCount',
                 'c.stats.ExpectedSequenceCount', 'c.stats.AlreadyKnownSequenceCount', 'c.stats.SetCheckpointCount', 'c.lastLocalCheckpointRevID',
                 'c.lastRemoteCheckpointRevID'],
- 'assumptions': ['push part: two real gateways over loopback, passive store slowed by 30-80 ms per pushed document, checkpoint interval 2 ms, the window between the two checkpointer notifications of a changes response widened by 25 ms through hook H2 (verifPoint); every value reaching the active side\'s checkpoint document is judged when it is written',
+ 'assumptions': ['push part: two real gateways over loopback, passive store slowed by 30-80 ms per pushed document, checkpoint interval 2 ms, the window between the two checkpointer notifications of a changes response widened by 25 ms through hook H2 (verifPoint); every value reaching the active side\'s checkpoint document is judged when it is written; push-batches part: the same with changes batch size 2-3 and the active side reading the documents of the first batch 40-90 ms slower (delays only select the schedule that is executed; the verdict compares the persisted value with what the passive side has stored at that moment)',
                  'notifications are protocol-conformant: announcements reach the checkpointer in feed order (non-decreasing under SequenceID.Before), each '
                  'position is announced once, completions arrive in any order (also before their announcement, as in push)',
                  'the order in which the real callers deliver the notifications of one changes batch (push: already-known before expected) is outside this '
@@ -67,6 +70,6 @@ META = {'technique': 'runtime monitoring: the real Checkpointer list logic and C
                       'random runs of ~300 sequences with compactions at the default threshold, 1500..12000 runs through the real persistence path with faults '
                       'and restarts, and race-detector rounds. Held on what was executed.',
         'level_note': 'Trusted: the harness model (announced prefix / reported set), the hand-written feed transcripts as ground truth for feed order, the recording '
-                      'peer, Go runtime and race detector. Inputs are restricted to protocol-conformant notification orders; whether the replicator callers '
-                      'always deliver such orders (push batch: already-known callback before expected callback; two change batches in flight) is not covered '
-                      'here and is reported separately by a non-deciding probe.'}
+                      'peer, Go runtime and race detector. Inputs are restricted to protocol-conformant notification orders; whether the real push replicator '
+                      'delivers such orders is decided separately by the push and push-batches parts (two gateways, every persisted checkpoint value judged against '
+                      'what the passive side has stored); the pull replicator\'s caller order is not driven at system level.'}
